@@ -49,7 +49,7 @@ def _child_init(counter=None, ncpu=None):
 def _child_run(mod_name: str, seed: int, tier: str, opts: dict) -> dict:
     import faulthandler
 
-    faulthandler.dump_traceback_later(opts.get("task_timeout", 900), exit=True)
+    faulthandler.dump_traceback_later(opts.get("task_timeout", 420), exit=True)
     t0 = time.time()
     try:
         from simrex import seams
